@@ -106,7 +106,7 @@ func endingsUnderBackPressure(c *runner.Cfg, res *report.Result, _ *netx.RecLogg
 			res.Inconcl("c06 stall %d: proxy: %v", idx, err)
 			return
 		}
-		px.ClientRcvBuf, px.ServerRcvBuf = 16<<10, 16<<10
+		px.SetRcvBuf(16<<10, 16<<10)
 		defer px.Close()
 		conn, st := mpx.Connect(noCtx, px.Addr(), logger, cliOpts)
 		if !st.OK() {
